@@ -7,9 +7,10 @@
 /// - Block parsing relies on `Indent` / `Dedent` layout tokens produced by the lexer.
 impl<'a> Parser<'a> {
     /// `target op= rhs` on a field/index is desugared to `target = target op rhs`; a binary right-hand side is one
-    /// operand of the new expression and must stay grouped (`a.f -= b - c` is `a.f - (b - c)`).
+    /// operand of the new expression and must stay grouped (`a.f -= b - c` is `a.f - (b - c)`), and so must a range
+    /// (binds looser than any operator) and `not x` (cannot follow a binary operator without parentheses).
     fn group_compound_rhs(rhs: Spanned<Expr>) -> Spanned<Expr> {
-        if matches!(rhs.node, Expr::Binary(..)) {
+        if matches!(rhs.node, Expr::Binary(..) | Expr::Range { .. } | Expr::Unary(UnaryOp::Not, _)) {
             let span = rhs.span;
             Spanned::new(Expr::Paren(Box::new(rhs)), span)
         } else {
